@@ -19,7 +19,7 @@ from types import SimpleNamespace
 from typing import Any, Callable, Iterator, Optional
 
 RULE = (
-    "Genes = every tuple of exon sizes (1 exon: 3..9 bases; 2 exons: 1..9 x 1..9; 3 exons: {1,2,3,4,5,8}^3 "
+    "Genes = every tuple of exon sizes (1 exon: 3..9 bases; 2 exons: 1..9 x 1..9; 3 exons: {1,2,3,4,6}^3 "
     "quick / 1..9^3 thorough; total >= 3), introns of 0, 1, 2 or 4 bases fixed by a formula of the sizes (a "
     "second intron layout for two extra placements), both strands, placed (a) not spanning the origin: at "
     "position 0, in the middle, ending at the record end, filling the whole record (linear records) and in the "
@@ -583,7 +583,7 @@ def _intron(left: int, right: int, index: int) -> int:
 def _size_tuples(tier: str) -> list[tuple[int, ...]]:
     out: list[tuple[int, ...]] = [(z,) for z in range(3, 10)]
     out += list(itertools.product(range(1, 10), repeat=2))
-    three = range(1, 10) if tier != "quick" else (1, 2, 3, 4, 5, 8)
+    three = range(1, 10) if tier != "quick" else (1, 2, 3, 4, 6)
     out += list(itertools.product(three, repeat=3))
     return [t for t in out if sum(t) >= 3]
 
